@@ -15,7 +15,7 @@ at that position is not a plain name / wildcard.
 import re
 from facts import walk, strip, show, callee_name
 
-TOK = re.compile(r"\s*(?:(\d+)|(\"(?:[^\"\\]|\\.)*\")|(\$?[A-Za-z_][A-Za-z_0-9]*|@[a-z]+)|(->|\.\.\.|==|!=|<=|>=|&&|\|\||\+=|-=|\+\+|--|[-+*/%<>=!&|().,\[\]~^]))")
+TOK = re.compile(r"\s*(?:(\d+)|(\"(?:[^\"\\]|\\.)*\")|(\$?[A-Za-z_][A-Za-z_0-9]*|@[a-z]+)|(->|\.\.\.|==|!=|<=|>=|&&|\|\||\+=|-=|\+\+|--|[-+*/%<>=!&|().,\[\]~^?:]))")
 
 BINPREC = [
     ({"="," +=", "-=", "+="}, 1),
@@ -66,6 +66,13 @@ class P:
         left = self.unary()
         while True:
             k, v = self.peek()
+            if k == "op" and v == "?" and minp <= 2:
+                self.next()
+                a = self.expr(2)
+                self.expect(":")
+                b = self.expr(2)
+                left = ("cond", left, a, b)
+                continue
             if k == "op" and v in PREC and PREC[v] >= minp:
                 p = PREC[v]
                 self.next()
@@ -202,6 +209,8 @@ def pattern_names(pat):
             rec(p[2])
         elif k in ("bin", "assign"):
             rec(p[2]); rec(p[3])
+        elif k == "cond":
+            rec(p[1]); rec(p[2]); rec(p[3])
         elif k == "fn":
             for a in p[2]:
                 rec(a)
@@ -436,6 +445,8 @@ class M:
             return False
         if kind == "assign":
             return k == "assign" and e["op"] == p[1] and self._m(p[2], e["l"], env, d) and self._m(p[3], e["r"], env, d)
+        if kind == "cond":
+            return k == "cond" and self._m(p[1], e["c"], env, d) and self._m(p[2], e["t"], env, d) and self._m(p[3], e["e"], env, d)
         return False
 
     def _mc(self, pat, e):
